@@ -17,11 +17,19 @@ MANIFEST = {
             'the parent workflow: synchronously for a plain parent task, through a scheduler job for a with-items one), the '
             'backlog, Task.complete while PAUSED, Workflow.resume / RunExistingTask; tied by the tree stream (pause / resume '
             '/ stop commands on any node of generated trees; rows, backlog and pending deliveries equal after EVERY event). '
-            'Mistral.Props.C10Tree: function-level theorems (dispatch_into_paused_creates_no_task, '
-            'dispatch_list_into_paused_creates_no_task, complete_in_paused_creates_no_task, pause_request_is_good) and '
-            'the propagation on concrete trees (pause root / pause leaf / resume root / resume leaf / pause then cancel); '
-            'the propagation over ALL trees (every RUNNING descendant PAUSED, resume brings them back) is decided by the '
-            'tree stream and its monitors, not by a theorem.',
+            'Mistral.Props.C10Tree: no_task_created_while_paused (ALL trees / states, lifted to `step`: under every event '
+            'except the resume command and the scheduled update job of a with-items child a PAUSED execution stays '
+            'PAUSED or is completed and gets NO task row; relation Quiet, Lemmas/TreePause) and its run version; '
+            'pause_request_is_good / resume_request_is_good (the whole pause / resume transaction incl. propagation '
+            'never touches a finished execution; resume needs repo patch 20); pause_subtree_full_fails (the pause loop '
+            'skips running executions below a finished child: known finding, corpus/C10/tree_pause_skips.json); '
+            'function-level dispatch_into_paused_creates_no_task, dispatch_list_into_paused_creates_no_task, '
+            'complete_in_paused_creates_no_task; the propagation on concrete trees (pause root / leaf, resume root / leaf, '
+            'pause then cancel). pause_propagates / pause_acknowledged_tree / pause_only_pauses (ALL reachable trees: a '
+            'pause request on an unfinished execution does not raise and every execution reached through unfinished '
+            'sub-workflows at any depth is PAUSED in the same transaction, which creates no row and only moves '
+            'RUNNING to PAUSED; Lemmas/TreeProp). NOT proved for all trees: the calling task of each paused execution '
+            'is PAUSED; resume brings them back (decided by the tree stream and its monitors).',
 }
 RULE = ('stream core: data-free single-activation programs x oracles x schedules x pause/resume/stop at random points, '
         'model vs real after every event; stream engine (mode pause): generated programs with data flow, pause and '
